@@ -4,7 +4,8 @@ This module defines text regions in both pixel and sky coordinates.
 """
 
 from regions._utils.wcs_helpers import pixel_scale_angle_at_skycoord
-from regions.core.attributes import (RegionMetaDescr, RegionVisualDescr,
+from regions.core.attributes import (RegionMetaDescr, RegionText,
+                                     RegionVisualDescr,
                                      ScalarPixCoord, ScalarSkyCoord)
 from regions.shapes.point import PointPixelRegion, PointSkyRegion
 
@@ -52,6 +53,7 @@ class TextPixelRegion(PointPixelRegion):
     _mpl_artist = 'Text'
     center = ScalarPixCoord('The leftmost pixel position (before rotation) '
                             'as a |PixCoord|.')
+    text = RegionText('The text string.')
     meta = RegionMetaDescr('The meta attributes as a |RegionMeta|')
     visual = RegionVisualDescr('The visual attributes as a |RegionVisual|.')
 
@@ -124,6 +126,7 @@ class TextSkyRegion(PointSkyRegion):
     _params = ('center', 'text')
     center = ScalarSkyCoord('The leftmost position (before rotation) as a '
                             '|SkyCoord|.')
+    text = RegionText('The text string.')
     meta = RegionMetaDescr('The meta attributes as a |RegionMeta|')
     visual = RegionVisualDescr('The visual attributes as a |RegionVisual|.')
 
